@@ -282,12 +282,21 @@ def acc_C16(w):
 # C17
 
 
+def _config_components(w, index_market):
+    """the components of an index market as the CONFIGURATION names them (not as the index market reports them)"""
+    sim = w.runner.simulator
+    names = w.scn.cfg[index_market.name]["markets"] if index_market.name in w.scn.cfg else None
+    if names is None:
+        return index_market.get_components()
+    return [sim.name2market[n] for n in names]
+
+
 def make_index_observers():
     """after_clock: snapshot taken immediately after each clock advance of an index market."""
     def after_clock(w, market):
         if isinstance(market, IndexMarket):
             t = market.get_time()
-            comps = market.get_components()
+            comps = _config_components(w, market)
             w.rec("idx_clock", market.market_id, t, market.get_fundamental_price(t),
                   [(c.outstanding_shares, c.get_fundamental_price(t), c.get_time()) for c in comps])
 
@@ -296,7 +305,7 @@ def make_index_observers():
         for m in sim.markets:
             if isinstance(m, IndexMarket):
                 t = m.get_time()
-                comps = m.get_components()
+                comps = _config_components(w, m)
                 w.rec("idx_obs", m.market_id, t,
                       [(s_, m.get_index(s_), m.get_market_index(s_), [(c.outstanding_shares, c.get_market_price(s_)) for c in comps])
                        for s_ in range(0, t + 1)])
